@@ -117,7 +117,7 @@ def rand_L(rng):
     return struct.pack("<d", v).hex()
 
 
-def gen_desc(rng, maxrows=4, tiny=False):
+def gen_desc(rng, maxrows=4, tiny=False, minrows=0):
     """A random table collection at the column level; usually NOT a valid tree sequence."""
     d = {"sequence_length": rand_L(rng),
          "time_units": rng.choice(TIME_UNITS),
@@ -128,6 +128,8 @@ def gen_desc(rng, maxrows=4, tiny=False):
         fixed, ragged, has_schema = TABLES[name]
         r = rng.random()
         n = 0 if r < (0.6 if tiny else 0.3) else rng.randrange(1, maxrows + 1)
+        if minrows:
+            n = rng.randrange(minrows, max(minrows, maxrows) + 1)
         t = {"n": n, "cols": {c: rand_col(rng, dt, n) for c, dt in fixed},
              "ragged": {c: rand_ragged(rng, dt, n) for c, dt in ragged}}
         if has_schema:
@@ -580,6 +582,12 @@ class Roundtrip(Family):
         def rec(name, f):
             try:
                 got = f()
+                if not isinstance(got, dict):       # a collection: equals() must hold as well
+                    if not tc0.equals(got):
+                        R[name + ":equals"] = "the result is not equals() to the original"
+                    if got.has_index() != tc0.has_index():
+                        R[name + ":has_index"] = "has_index() %s -> %s" % (tc0.has_index(), got.has_index())
+                    got = canon_dict(got.asdict())
                 R[name] = canon_diff(c0, got)
             except Exception as e:
                 R[name] = "raised " + exc_name(e) + ": " + str(e)[:200]
@@ -589,7 +597,7 @@ class Roundtrip(Family):
             tc0.dump(p)
             fb = open(p, "rb").read()
             obs["file"] = fb.hex()
-            rec("path", lambda: canon_dict(tskit.TableCollection.load(p).asdict()))
+            rec("path", lambda: tskit.TableCollection.load(p))
             import pathlib
             rec("pathlib", lambda: canon_dict(tskit.TableCollection.load(pathlib.Path(p)).asdict()))
 
@@ -600,11 +608,11 @@ class Roundtrip(Family):
                 with open(q, "rb") as f:
                     return canon_dict(tskit.TableCollection.load(f).asdict())
             rec("fileobj", fileobj)
-            rec("dict", lambda: canon_dict(tskit.TableCollection.fromdict(tc0.asdict()).asdict()))
+            rec("dict", lambda: tskit.TableCollection.fromdict(tc0.asdict()))
             rec("dict64", lambda: canon_dict(tskit.TableCollection.fromdict(tc0.asdict(force_offset_64=True)).asdict()))
             for proto in (2, pickle.HIGHEST_PROTOCOL):
-                rec("pickle%d" % proto, lambda: canon_dict(pickle.loads(pickle.dumps(tc0, protocol=proto)).asdict()))
-            rec("copy", lambda: canon_dict(tc0.copy().asdict()))
+                rec("pickle%d" % proto, lambda: pickle.loads(pickle.dumps(tc0, protocol=proto)))
+            rec("copy", lambda: tc0.copy())
             rec("deepcopy", lambda: canon_dict(copy.deepcopy(tc0).asdict()))
 
             def skip_tables():
@@ -1034,7 +1042,9 @@ class Equals(Family):
                 r += [eq, ae]
             rows.append(r)
         other = a.equals("not a table collection")
-        return {"rows": rows, "other_type": other, "dunder": [a == b, a != b]}
+        a2, b2 = build_tc(case["a"]), build_tc(case["b"])
+        return {"rows": rows, "other_type": other, "dunder": [a == b, a != b],
+                "reflexive": [a.equals(a2), b.equals(b2), a.equals(a.copy()), a.equals(a)]}
 
     def oracle(self, case, obs):
         out = []
@@ -1051,6 +1061,8 @@ class Equals(Family):
             exp = expected_equal(case["tag"], o)
             if eq1 != exp:
                 out.append(("equals-definition:%s" % case["tag"], "equals=%s under %s, but the differing component is %s" % (eq1, on, case["tag"])))
+        if not all(obs.get("reflexive", [True])):
+            out.append(("equals-not-reflexive", "a collection is not equals() to an identical one / its copy / itself: %r" % obs["reflexive"]))
         if obs["other_type"] is not False:
             out.append(("equals-other-type", "equals(non table collection) = %r" % obs["other_type"]))
         if obs["dunder"][0] != obs["rows"][0][0] or obs["dunder"][1] == obs["dunder"][0]:
